@@ -35,9 +35,9 @@ PROPS = {
     "C12": (["hashtable", "geometry", "indices", "lemmas"], "c12"),
     "C13": (["bitarray"], "c13"),
     "C14": (["rle", "lemmas"], "c14"),
-    "C15": (["rle", "structural", "lemmas"], "c15"),
+    "C15": (["rle", "rle2d", "structural", "lemmas"], "c15"),
     "C16": (["rle", "lemmas"], "c16"),
-    "C17": (["rle2d", "structural", "lemmas"], "c17"),
+    "C17": (["rle2d", "rle", "structural", "lemmas"], "c17"),
     "C18": (["dataclass"], "c18"),
     "C19": (["colslice", "rowsel", "indices", "derived", "geometry", "reduce", "scans", "columns", "structural", "lemmas"], "c19"),
 }
